@@ -277,3 +277,49 @@ def replay_case(case):
         return run_case(case, d)
     finally:
         shutil.rmtree(d, ignore_errors=True)
+
+
+# ---------------------------------------------------------------------------------------------------------
+# div / mod helpers vs the Lean model
+
+def check_divmod(seed, n):
+    import hera.stdlib as SL
+    import hera.vm as V
+    from . import progrun
+    rng = random.Random(seed)
+    words = [0, 1, 2, 3, 5, 7, 100, 255, 256, 32767, 32768, 32769, 65535, 65534, 65533, 65530, 65436, 40000]
+    pairs = [(a, b) for a in words for b in words] + [(rng.randint(0, 65535), rng.randint(0, 65535)) for _ in range(n)]
+    reqs, reals = [], []
+    for a, b in pairs:
+        outs = []
+        for conv in ("reg", "stack"):
+            vm = V.VirtualMachine(progrun.make_settings())
+            try:
+                if conv == "reg":
+                    vm.registers[1], vm.registers[2] = a, b
+                    SL.tiger_div_reg(vm)
+                    q = vm.registers[1]
+                    vm.registers[1], vm.registers[2] = a, b
+                    SL.tiger_mod_reg(vm)
+                    m = vm.registers[1]
+                else:
+                    vm.registers[14] = 100
+                    vm.store_memory(103, a)
+                    vm.store_memory(104, b)
+                    SL.tiger_div_stack(vm)
+                    q = vm.load_memory(103)
+                    vm.store_memory(103, a)
+                    SL.tiger_mod_stack(vm)
+                    m = vm.load_memory(103)
+                outs.append("{} {}".format(int(q), int(m)))
+            except Exception as e:  # noqa
+                outs.append("err:" + type(e).__name__)
+        reqs.append("tigerdiv {} {}".format(a, b))
+        reals.append(outs)
+    answers = proto.run_herad(reqs)
+    disagreements = []
+    for (a, b), outs, ans in zip(pairs, reals, answers):
+        for conv, o in zip(("reg", "stack"), outs):
+            if o != ans:
+                disagreements.append({"stream": "tigerdiv", "case": {"l": a, "r": b, "conv": conv}, "model": ans, "impl": o})
+    return {"evaluations": 2 * len(pairs), "violations": [], "disagreements": disagreements, "distinct": len(set(pairs))}
